@@ -54,7 +54,7 @@ def check_history(ctx, cs):
             try:
                 prms = [[U[dg] + fr_ * (U[-dg - 1] - U[dg]) for U, dg in zip(obj._knot_vector, obj._degree)] for fr_ in (0.0, 0.3, 0.7, 1.0)]
                 before = [obj.evaluate_single(q[0] if pd_ == 1 else q) for q in prms]
-                for c_ in (2.0 ** -30, 2.0 ** 30):
+                for c_ in (2.0 ** -30, 2.0 ** 30, 2.0 ** -60, 2.0 ** 60):
                     obj.weights = [w * c_ for w in obj.weights]
                     after = [obj.evaluate_single(q[0] if pd_ == 1 else q) for q in prms]
                     if not close_seq(after, before):
@@ -148,6 +148,25 @@ def check_pure(ctx, cs):
                         a, b, d = (x.evaluate_single(prm[0] if pd == 1 else prm) for x in (obj, nb, back))
                         if not (close_seq(b, a) and close_seq(d, a)):
                             ctx.violate("convert.*", tg + ["evaluation"], small, {"param": prm, "bspline": a, "nurbs": b, "back": d})
+        # source and converted object are independent: a knot inserted into one leaves the other's definition alone
+        try:
+            from geomdl import operations as _ops
+            import copy as _copy
+            from ..adapter import project as _project
+            src = build(sh)
+            conv = convert.bspline_to_nurbs(src)
+            b_src, b_conv = _copy.deepcopy(_project(src)), _copy.deepcopy(_project(conv))
+            pd_ = len(sh["deg"])
+            _ops.insert_knot(conv, [0.3] + [None] * (pd_ - 1), [1] + [0] * (pd_ - 1))
+            if _project(src) != b_src:
+                ctx.violate("convert.bspline_to_nurbs", tg + ["shares_state_with_source"], small, {"edited": "converted", "source_kv": [list(U) for U in src._knot_vector]})
+            src2 = build(sh)
+            conv2 = convert.bspline_to_nurbs(src2)
+            _ops.insert_knot(src2, [0.3] + [None] * (pd_ - 1), [1] + [0] * (pd_ - 1))
+            if _project(conv2) != b_conv:
+                ctx.violate("convert.bspline_to_nurbs", tg + ["shares_state_with_source"], small, {"edited": "source"})
+        except Exception as e:
+            ctx.violate("convert.bspline_to_nurbs", tg + ["shares_state_with_source", "raises"], small, {"exception": repr(e)[:200]})
         # a rational shape whose weights are not all one (some are, some are not) cannot be turned into a non-rational one: whatever
         # the converter hands back evaluates like the input
         for label, wfun in (("mixed_weights", lambda i: 1.0 if i % 2 == 0 else 2.0), ("first_weight_only", lambda i: 3.0 if i == 0 else 1.0), ("no_unit_weight", lambda i: 2.0 + i % 2)):
